@@ -144,7 +144,8 @@ CHECKS["C18"] = dict(
     text=("Every place that detects unhonoured input is proved to emit exactly one warning under exactly the stated "
           "condition: IncludeNode.evaluate_for_platform (iff the lookup found nothing - a memoised miss included - with the "
           "form quote/angle named), FileParser.insert_directive_node (iff unrecognised, >= 2 tokens, not #line/#warning/"
-          "#error), load_database (one per skipped entry), ArgumentParser.__init__ (unknown compiler / alias loop / "
+          "#error), the per-entry block of finder.find (one per forced include that is not found, naming it), "
+          "load_database (one per skipped entry), ArgumentParser.__init__ (unknown compiler / alias loop / "
           "dangling alias). MetaWarning.inspect/warn and WarningAggregator.filter/warn are proved to count exactly the "
           "matching WARNING records and to print the count they hold; the set of log.warning call sites is checked "
           "against a table. The whole-run multiset of events and the printed totals are a bounded stand-in (model code "
